@@ -1002,7 +1002,16 @@ func (x *Exec) evalSlice(env *SpecEnv, e *ESlice) SVal {
 		arrs := make([]Term, len(b.Arrs))
 		for i, a := range b.Arrs {
 			es := elemSortOf(a.Sort)
-			arrs[i] = Term{fmt.Sprintf("(lambda ((sk Int)) (select %s (+ sk %s)))", a.S, l.S), ArrSort(SInt, es)}
+			if l.S == "0" {
+				arrs[i] = a
+			} else if x.quantDepth == 0 {
+				// a named array with a defining axiom instead of a lambda term (cvc5 rejects lambdas, z3 gets lost in them)
+				n := x.fresh("seqslice", ArrSort(SInt, es))
+				x.assume(Term{fmt.Sprintf("(forall ((sk Int)) (! (= (select %s sk) (select %s (+ sk %s))) :pattern ((select %s sk))))", n.S, a.S, l.S, n.S), SBool})
+				arrs[i] = n
+			} else {
+				arrs[i] = Term{fmt.Sprintf("(lambda ((sk Int)) (select %s (+ sk %s)))", a.S, l.S), ArrSort(SInt, es)}
+			}
 		}
 		return SVal{VSeq{arrs, Sub(h, l)}, base.T}
 	}
@@ -1019,6 +1028,12 @@ func (x *Exec) seqConcat(env *SpecEnv, a, b SVal) SVal {
 	arrs := make([]Term, len(sa.Arrs))
 	for i := range sa.Arrs {
 		es := elemSortOf(sa.Arrs[i].Sort)
+		if x.quantDepth == 0 {
+			n := x.fresh("seqcat", ArrSort(SInt, es))
+			x.assume(Term{fmt.Sprintf("(forall ((sk Int)) (! (= (select %s sk) (ite (< sk %s) (select %s sk) (select %s (- sk %s)))) :pattern ((select %s sk))))", n.S, sa.Len.S, sa.Arrs[i].S, sb.Arrs[i].S, sa.Len.S, n.S), SBool})
+			arrs[i] = n
+			continue
+		}
 		arrs[i] = Term{fmt.Sprintf("(lambda ((sk Int)) (ite (< sk %s) (select %s sk) (select %s (- sk %s))))", sa.Len.S, sa.Arrs[i].S, sb.Arrs[i].S, sa.Len.S), ArrSort(SInt, es)}
 	}
 	return SVal{VSeq{arrs, Add(sa.Len, sb.Len)}, a.T}
